@@ -49,15 +49,24 @@ func c12Digest(s string) string {
 	return hex.EncodeToString(h[:6])
 }
 
+// the reading functions tied structurally, and every function of decoder.go the facts know by name (any other
+// function is a helper the reading functions may have been split into: its constants count with theirs)
+var c12Reading = map[string]bool{"decodeType": true, "decodeText": true, "decodeBulkBytes": true}
+var c12Listed = map[string]bool{"NewDecoder": true, "Decode": true, "MustDecodeOpt": true, "MustDecode": true, "DecodeFromBytes": true,
+	"MustDecodeFromBytes": true, "decodeResp": true, "decodeType": true, "decodeText": true, "decodeInt": true, "decodeBulkBytes": true,
+	"decodeArray": true, "decodeSingleLineBulkBytesArray": true}
+
 func genC12() {
 	// ---- decoder.go: read sites and offset updates, per method, in source order
 	fset, f := parseFile("pkg/redis/client/decoder.go")
 	var sites, inlineSites []string
+	var constFds []*ast.FuncDecl
 	for _, d := range f.Decls {
 		fd, ok := d.(*ast.FuncDecl)
 		if !ok || fd.Body == nil {
 			continue
 		}
+		c12Normalize(fd) // receiver -> d, locals -> v<i>: a renamed local or receiver is the same site (c12_norm.go)
 		// the inline-command path (decodeSingleLineBulkBytesArray and the `default:` clause of
 		// decodeResp's type switch) is outside C12's quantifier: listed, not pinned
 		var inlineFrom, inlineTo token.Pos
@@ -74,6 +83,10 @@ func genC12() {
 		}
 		all := sites
 		sites = nil
+		defs := c12Defs(fd)
+		if c12Reading[fd.Name.Name] || !c12Listed[fd.Name.Name] {
+			constFds = append(constFds, fd)
+		}
 		ast.Inspect(fd.Body, func(n ast.Node) bool {
 			if n != nil && inlineFrom.IsValid() && n.Pos() >= inlineFrom && n.End() <= inlineTo {
 				if _, isStmt := n.(ast.Stmt); isStmt || n.Pos() != inlineFrom {
@@ -88,7 +101,11 @@ func genC12() {
 			case *ast.AssignStmt:
 				for _, l := range x.Lhs {
 					if c12IsSel(l, "d", "offset") {
-						sites = append(sites, fd.Name.Name+": "+c12Render(fset, x))
+						if len(x.Lhs) == 1 && len(x.Rhs) == 1 { // by def-use (c12_flow.go)
+							sites = append(sites, fd.Name.Name+": d.offset "+x.Tok.String()+" "+c12Resolve(fset, x.Rhs[0], defs, 0))
+						} else {
+							sites = append(sites, fd.Name.Name+": "+c12Render(fset, x))
+						}
 					}
 				}
 			case *ast.ReturnStmt:
@@ -97,14 +114,9 @@ func genC12() {
 					sites = append(sites, fd.Name.Name+": "+c12Render(fset, x))
 				}
 			case *ast.CallExpr:
-				// d.r.<Method>(…) and io.ReadFull(d.r, …)
-				if s, ok := x.Fun.(*ast.SelectorExpr); ok {
-					if c12IsSel(s.X, "d", "r") {
-						sites = append(sites, fd.Name.Name+": read "+s.Sel.Name)
-					}
-					if len(x.Args) > 0 && c12IsSel(x.Args[0], "d", "r") {
-						sites = append(sites, fd.Name.Name+": read "+c12Render(fset, x.Fun))
-					}
+				// d.r.<Method>(…) and io.ReadFull(d.r, …), arguments by def-use (c12_flow.go)
+				if rs := c12ReadSite(fset, x, defs); rs != "" {
+					sites = append(sites, fd.Name.Name+": "+rs)
 				}
 			}
 			return true
@@ -131,6 +143,7 @@ func genC12() {
 		sites = all
 	}
 	facts["c12_decoder_sites"] = sites
+	facts["c12_decoder_consts"] = c12Consts(fset, constFds)
 	facts["c12_decoder_sites_inline"] = inlineSites
 
 	// ---- bodies of the multi-bulk path, pinned by digest (a change there needs the model re-read;
@@ -148,6 +161,7 @@ func genC12() {
 					continue
 				}
 				var node ast.Node = fd.Body
+				c12Normalize(fd) // local names, error / log texts do not enter the digest (c12_norm.go)
 				if n == "decodeResp" {
 					if cc := c12DefaultClause(fd); cc != nil {
 						saved := cc.Body
@@ -162,13 +176,16 @@ func genC12() {
 			}
 		}
 	}
-	pin("pkg/redis/client/decoder.go", "NewDecoder", "MustDecodeOpt", "decodeResp", "decodeType", "decodeText", "decodeInt", "decodeBulkBytes", "decodeArray")
+	// decodeType / decodeText / decodeBulkBytes (the functions that read and count) are tied structurally:
+	// c12_decoder_sites (reader calls with sizes, offset increments, by def-use) + c12_decoder_consts
+	pin("pkg/redis/client/decoder.go", "NewDecoder", "MustDecodeOpt", "decodeResp", "decodeInt", "decodeArray")
 	pin("pkg/redis/client/handler.go", "ParseArgs", "ChangeArgsToResp")
 	pin("pkg/redis/client/resp.go", "AsBulkBytes", "AsArray")
 	pin("pkg/redis/client/encoder.go", "itos", "encodeResp", "encodeType", "encodeString", "encodeInt", "encodeBulkBytes", "encodeArray")
 	pin("pkg/redis/client/proto/writer.go", "WriteArgs", "writeLen", "WriteArg", "bytes", "string", "uint", "int", "crlf") // not `float`: its rendering is free, the round trip is checked on the real writer
 	pin("pkg/redis/client/conn/redis_conn.go", "Send", "send")
 	facts["c12_bodies"] = bodies
+	genC12Bufio() // c12_bufio: the standard library functions the bufio model transcribes (c12_bufio.go)
 
 	// ---- users of the stream decoder and their offset arithmetic
 	var users, uses, reassigned []string
